@@ -565,6 +565,183 @@ def verbatim_tags(c):
     return {'part': 'verbatim', 'kinds': sorted(pipes.kinds_in(c['spec'])), 'names': 'dataframe' if c.get('given') else 'generated'}
 
 
+# ------------------------------------------------------------------ several fitted estimators in one process (oracle)
+# Names are a function of ONE fitted estimator: its own fit-time names, its own state / input split, its own episode
+# flag, its own place in a composite.  Nothing another estimator of the same process was fitted with or was asked for
+# before may show in the answer.  A cohort is a set of estimators that share what is visible from outside (the kind of
+# stage, its hyper-parameters, the column names - one DataFrame, or generated names) and differ in what decides the
+# column order (n_inputs, episode_feature, the nesting: used directly / as a stage of a KoopmanPipeline / on either side
+# of a SplitPipeline, a frame with fewer columns); they are asked for names in a random order, repeatedly, in both
+# formats and with every episode_feature flag, fitted all in advance or each one just before its first question.  Every
+# single answer is checked against the asked estimator's OWN lifted columns by evaluating the names on its own input.
+
+SHORT_NAMES = ['a', 'b', 'c', 'd', 'p', 'q', 'r', 's', 'th', 'om', 'v', 'i_d']
+
+COHORT_BASES = [
+    {'k': 'poly', 'order': 2, 'io': False}, {'k': 'poly', 'order': 3, 'io': False}, {'k': 'poly', 'order': 2, 'io': True},
+    {'k': 'poly', 'order': 3, 'io': True}, {'k': 'poly', 'order': 1, 'io': False}, {'k': 'bilinear'},
+    {'k': 'delay', 'dx': 1, 'du': 1}, {'k': 'delay', 'dx': 2, 'du': 0}, {'k': 'const'}, {'k': 'angle', 'feat': [0]},
+    {'k': 'pipe', 'ss': [{'k': 'delay', 'dx': 1, 'du': 1}, {'k': 'poly', 'order': 2, 'io': False}]},
+    {'k': 'pipe', 'ss': [{'k': 'poly', 'order': 2, 'io': False}, {'k': 'delay', 'dx': 1, 'du': 0}]},
+    {'k': 'pipe', 'ss': [{'k': 'angle', 'feat': [1]}, {'k': 'poly', 'order': 2, 'io': False}]},
+    {'k': 'pipe', 'ss': [{'k': 'const'}, {'k': 'bilinear'}]},
+]
+
+
+def _cohort_nestings(base):
+    """the same stage(s) used directly, as the stage(s) of a pipeline, on the state side / the input side of a split
+    pipeline, and a split pipeline as a stage of a pipeline"""
+    ss = list(base['ss']) if base['k'] == 'pipe' else [base]
+    out = [base, {'k': 'pipe', 'ss': ss}, {'k': 'split', 'a': ss, 'b': []}, {'k': 'split', 'a': [], 'b': ss},
+           {'k': 'split', 'a': ss, 'b': ss}, {'k': 'pipe', 'ss': [{'k': 'split', 'a': ss, 'b': []}]}]
+    return [s for s in out if _stage_mode(s) == 'expr']
+
+
+def gen_cohort(rng, base=None, named=None, size=None):
+    k = rng.randint(2, 4)                       # data columns next to the episode column
+    if base is None:
+        base = rng.choice(COHORT_BASES)
+    if named is None:
+        named = rng.random() < 0.75
+    names = None
+    if named:
+        r = rng.random()
+        names = rng.sample(SHORT_NAMES, k + 1) if r < 0.5 else (given_names(rng, k + 1) if r < 0.85 else special_names(rng, k + 1))
+    m = pipes.loss(base) + 3
+    rows = []
+    for l in (1, 2):
+        for _ in range(m + rng.randint(0, 2)):
+            rows.append([l] + [round(rng.uniform(0.3, 2.0) * (1 + 0.37 * j) * rng.choice([-1, 1]), 3) for j in range(k)])
+    nestings = _cohort_nestings(base)
+    members, seen = [], set()
+    want = size or rng.randint(3, 6)
+    for _ in range(60):
+        if len(members) >= want:
+            break
+        sp = rng.choice(nestings) if rng.random() < 0.85 else rng.choice(_cohort_nestings(rng.choice(COHORT_BASES)) or [base])
+        ep = rng.random() < 0.4
+        lead = (not ep) and rng.random() < 0.25                 # the first column of the frame is an ordinary state
+        ncols = k if rng.random() < 0.7 else rng.randint(2, k)      # a frame with the leading data columns only
+        nfeat = ncols + (1 if lead else 0)
+        nu = rng.randint(0, nfeat - 1)
+        mem = {'spec': sp, 'nu': nu, 'ep': ep, 'lead': lead, 'ncols': ncols}
+        key = json.dumps(mem, sort_keys=True)
+        if key in seen:
+            continue
+        seen.add(key)
+        members.append(mem)
+    asks = []
+    for i in range(len(members)):
+        for latex in (False, True):
+            asks.append([i, latex, rng.choice([None, None, True, False])])
+    rng.shuffle(asks)
+    asks += [[rng.randrange(len(members)), rng.random() < 0.5, rng.choice([None, True, False])] for _ in range(len(members))]
+    return {'cohort': True, 'names': names, 'rows': rows, 'members': members, 'asks': asks, 'fit_first': rng.random() < 0.6}
+
+
+def _cohort_input(case, mem):
+    A = np.asarray(case['rows'], dtype=float)
+    cols = list(range(1, 1 + mem['ncols']))
+    if mem['ep'] or mem['lead']:
+        cols = [0] + cols
+    X = np.ascontiguousarray(A[:, cols])
+    if case['names'] is None:
+        return X, X, None
+    given = [case['names'][j] for j in cols]
+    return X, pandas.DataFrame(X, columns=given), given
+
+
+def _generated_in(nx, nu, ep, latex):
+    if latex:
+        return ([r'\mathrm{episode}'] if ep else []) + [f'x_{{{j}}}' for j in range(nx)] + [f'u_{{{j}}}' for j in range(nu)]
+    return (['ep'] if ep else []) + [f'x{j}' for j in range(nx)] + [f'u{j}' for j in range(nu)]
+
+
+def oracle_cohort(case, count=None):
+    fitted = {}
+
+    def get(i):
+        if i not in fitted:
+            mem = case['members'][i]
+            X, Xfit, given = _cohort_input(case, mem)
+            try:
+                est = pipes.fit(mem['spec'], Xfit, mem['nu'], mem['ep'])
+                Xt = np.asarray(est.transform(Xfit), dtype=float)
+            except Exception as ex:
+                fitted[i] = None
+                if count:
+                    count('cohort member rejected:' + st.err_enum(ex))
+                return None
+            fitted[i] = (est, X, Xt, given)
+            if count:
+                count('cohort member fitted: ' + ('DataFrame names' if given else 'generated names'))
+        return fitted[i]
+    if case['fit_first']:
+        for i in range(len(case['members'])):
+            get(i)
+    for n_ask, (i, latex, call) in enumerate(case['asks']):
+        got = get(i)
+        if got is None:
+            continue
+        est, X, Xt, given = got
+        mem = case['members'][i]
+        ep = mem['ep']
+        e = 1 if ep else 0
+        fmt = 'latex' if latex else None
+        who = (f'question {n_ask + 1} of the process, to member {i} ({type(est).__name__} {json.dumps(mem["spec"])}, n_inputs={mem["nu"]}, '
+               f'episode_feature={ep}, fitted on {"columns " + str(given) if given else "an array"}), format={fmt}, '
+               f'episode_feature={call}')
+        nfeat = X.shape[1] - e
+        want_in = list(given) if given else _generated_in(nfeat - mem['nu'], mem['nu'], ep, latex)
+        try:
+            names_in = [str(s) for s in est.get_feature_names_in(format=fmt)]
+            names = [str(s) for s in est.get_feature_names_out(format=fmt, episode_feature=call)]
+            syms = [str(s) for s in est.get_feature_names_out(format=fmt, episode_feature=call, symbols_only=True)]
+        except Exception as ex:
+            return f'{who}: raised {type(ex).__name__}: {ex}'
+        if names_in != want_in:
+            return f'{who}: get_feature_names_in = {names_in}, the input columns are named {want_in}'
+        ce = ep if call is None else bool(call)
+        if len(names) != Xt.shape[1] - e + (1 if ce else 0):
+            return f'{who}: {len(names)} names for {Xt.shape[1] - e} lifted columns' + (' and the episode column' if ce else '')
+        if len(syms) != len(names) or len(set(syms)) != len(syms):
+            return f'{who}: symbols_only names {syms} are not one distinct symbol per column ({len(names)} columns)'
+        if ce:
+            head = want_in[0] if ep else (r'\mathrm{episode}' if latex else 'ep')
+            if names[0] != head or syms[0] != (r'\mathrm{episode}' if latex else 'ep'):
+                return f'{who}: the episode column is named {names[0]!r} / {syms[0]!r}, expected {head!r}'
+        body = names[(1 if ce else 0):]
+        why = _check_stage('expr', want_in, ([want_in[0]] if ep else []) + body, X, Xt, ep, latex, who)
+        if why:
+            return why
+        if count:
+            count('cohort answers evaluated against the asked estimator\'s own columns')
+    return None
+
+
+def cohort_family(rng):
+    """every base in a named and in a generated-names cohort (random members / order), plus the sharpest form: ONE frame,
+    one stage, every n_inputs, asked in a random order"""
+    for base in COHORT_BASES:
+        for named in (True, False):
+            yield gen_cohort(rng, base=base, named=named)
+    for base in COHORT_BASES[:4] + COHORT_BASES[10:12]:
+        c = gen_cohort(rng, base=base, named=True, size=2)
+        k = len(c['rows'][0]) - 1
+        ep = rng.random() < 0.5
+        nest = _cohort_nestings(base)
+        c['members'] = [{'spec': nest[j % 2] if rng.random() < 0.5 else base, 'nu': nu, 'ep': ep, 'lead': False, 'ncols': k}
+                        for j, nu in enumerate(rng.sample(range(k), k))]
+        c['asks'] = [[i, latex, None] for latex in (False, True) for i in range(k)]
+        rng.shuffle(c['asks'])
+        yield c
+
+
+def cohort_tags(c):
+    return {'part': 'cohort', 'kinds': sorted(set().union(*[pipes.kinds_in(m['spec']) for m in c['members']])),
+            'names': 'dataframe' if c.get('names') else 'generated'}
+
+
 def oracle(case, est=None):
     """the name-evaluating oracle under the default configuration and - the documented way to speed up prediction - with
     `skip_validation=True` (a fresh fit inside the context): names must describe the columns on both routes"""
@@ -622,12 +799,20 @@ def run(ctx):
                 'parentheses (DataFrame columns such as "cart pos", "f(x, y)", or names generated by an earlier stage such as '
                 '"R_0(x, u)", "D1(x0)") checked stage by stage: every kind of stage in front of every name-composing stage + '
                 'random trees, both formats - the names behind a stage are read as expressions whose atoms are the names in '
-                'front of it taken verbatim and must evaluate to the column')
+                'front of it taken verbatim and must evaluate to the column; cohorts of several fitted estimators in ONE process '
+                'that share the stage, its hyper-parameters and the column names (one DataFrame, or generated names) and differ in '
+                'n_inputs / episode_feature / nesting (direct, pipeline stage, either side of a split pipeline, shorter frame), '
+                'fitted in advance or just before their first question, asked in random order, repeatedly, both formats, every '
+                'episode_feature flag: every answer is evaluated against the asked estimator\'s own columns')
     ctx.explanation = ('theorems C19_*: names of row-wise stages are the generic row function at the string instance; one '
                        'name per column; delay block i names D_i(.) and holds the data delayed by i; symbols_only / '
                        'episode-name / given-names rules; correspondence verbatim; oracle evaluates names as expressions; a second '
                        'reader matches input names literally (no tokenising), keeps every reading of an ambiguous name and '
-                       'accepts a column when some reading reproduces it, so arbitrary strings can be input names')
+                       'accepts a column when some reading reproduces it, so arbitrary strings can be input names; names are a '
+                       'function of the one fitted estimator that is asked (the model has no process-level state), so the cohort '
+                       'oracle interleaves questions to estimators that look alike from outside and checks each answer - input '
+                       'names, one name and one distinct symbol per column, episode name, every name evaluated on the data - '
+                       'against that estimator alone, whatever was fitted or asked before')
     ctx.proof_obligations('Properties.C19', THEOREMS)
     drv = ctx.get_driver()
     lines, meta = [], []
@@ -700,6 +885,16 @@ def run(ctx):
             ctx.fail(why, c, verbatim_tags(c))
             if len(ctx.failures) > n_fail:
                 break
+    # several fitted estimators in one process, asked in various orders: every answer describes the asked estimator's columns
+    n_fail = len(ctx.failures)
+    for c in list(cohort_family(ctx.rng)) + [gen_cohort(ctx.rng) for _ in range(ctx.n(20, 300))]:
+        why = oracle_cohort(c, ctx.count)
+        ctx.count('cohort: ' + ('one DataFrame\'s names' if c.get('names') else 'generated names') + ', members differ in n_inputs / episode_feature / nesting')
+        ctx.record_case({k: c.get(k) for k in ('names', 'members', 'fit_first')}, True)
+        if why:
+            ctx.fail(why, c, cohort_tags(c))
+            if len(ctx.failures) > n_fail:
+                break
     replies = drv.ask(lines)
     bad = []
     for (c, fmt, sym, call, names, classes, use_df), rep in zip(meta, replies):
@@ -739,6 +934,6 @@ def run(ctx):
 def replay(ctx, path):
     obj = json.load(open(path))
     case = obj.get('case') or (obj.get('first_disagreement') or {}).get('case')
-    why = oracle_verbatim(case) if case.get('verbatim') else oracle(case)
+    why = oracle_cohort(case) if case.get('cohort') else (oracle_verbatim(case) if case.get('verbatim') else oracle(case))
     print('oracle:', why)
     return 1 if why else 0
